@@ -136,7 +136,9 @@ func (s *Service) submitValidatorRegistrationsForAccounts(ctx context.Context,
 			relayRegistrations,
 		)
 		if err != nil {
-			return err
+			// A problem with one validator must not stop the registrations of the others.
+			s.log.Error().Err(err).Msg("Failed to generate validator registrations for account; skipping")
+			continue
 		}
 		consensusRegistrations = append(consensusRegistrations, accountConsensusRegistrations...)
 	}
